@@ -187,4 +187,60 @@ theorem iterRun_budget {κ : Type} (fl : Flavour) (ri : Tmo) (room : κ → Nat)
     · simp only [hp, Bool.false_eq_true, if_false]
       exact ⟨hb, hu⟩
 
+/-! ## UDPNetworkClient -/
+
+/-- one `transport.recv(timeout)` / `transport.send(data, timeout)` of the datagram transport with a finite timeout -/
+theorem dgramRecv_fin (ri : Tmo) (bufsize tv : Nat) (sock : List SockCall) (w : World) :
+    CallFin tv w (dgramRecv ri bufsize (some tv) sock w).w (dgramRecv ri bufsize (some tv) sock w).out.isTimeout :=
+  (retry_good (classifyRecv .plain) (.rcall bufsize) rfl rfl ri (some tv) w.now sock (some tv) w (Good.init w tv)).toCall
+
+theorem dgramSend_fin (ri : Tmo) (data : Bytes) (tv : Nat) (sock : List SockCall) (w : World) :
+    CallFin tv w (dgramSend ri data (some tv) sock w).w (dgramSend ri data (some tv) sock w).out.isTimeout :=
+  (retry_good (classifySend .plain) (.call data.length 1) rfl rfl ri (some tv) w.now sock (some tv) w (Good.init w tv)).toCall
+
+theorem udpClientRecv_fin (ri : Tmo) (bufsize : Nat) (lk : Option LockEv) (tv : Nat) (sock : List SockCall) (w : World) :
+    CallFin tv w (udpClientRecv ri bufsize lk (some tv) sock w).w
+      (udpClientRecv ri bufsize lk (some tv) sock w).out.isTimeout := by
+  unfold udpClientRecv
+  cases lk with
+  | none => exact dgramRecv_fin ri bufsize tv sock w
+  | some ev =>
+    simp only []
+    have hl := lockWithTimeout_facts ev tv w
+    cases hr : lockWithTimeout ev (some tv) w with
+    | timeout w' => rw [hr] at hl; simpa [Outcome.isTimeout] using hl
+    | acquired t' w' =>
+      rw [hr] at hl
+      obtain ⟨tv', e, h1, h2, h3, h4, h5, h6, h7, h8, h9⟩ := hl
+      subst e
+      simp only []
+      exact (dgramRecv_fin ri bufsize tv' sock w').afterLock h1 h2 h3 h4 h5 h6 h7 h8 h9
+
+theorem udpClientSend_fin (ri : Tmo) (data : Bytes) (lk : Option LockEv) (tv : Nat) (sock : List SockCall) (w : World) :
+    CallFin tv w (udpClientSend ri data lk (some tv) sock w).w
+      (udpClientSend ri data lk (some tv) sock w).out.isTimeout := by
+  unfold udpClientSend
+  cases lk with
+  | none => exact dgramSend_fin ri data tv sock w
+  | some ev =>
+    simp only []
+    have hl := lockWithTimeout_facts ev tv w
+    cases hr : lockWithTimeout ev (some tv) w with
+    | timeout w' => rw [hr] at hl; simpa [Outcome.isTimeout] using hl
+    | acquired t' w' =>
+      rw [hr] at hl
+      obtain ⟨tv', e, h1, h2, h3, h4, h5, h6, h7, h8, h9⟩ := hl
+      subst e
+      simp only []
+      exact (dgramSend_fin ri data tv' sock w').afterLock h1 h2 h3 h4 h5 h6 h7 h8 h9
+
+/-- when the lock is not obtained within the budget the socket is never touched (datagram client) -/
+theorem udpClient_lock_timeout_no_io (ri : Tmo) (bufsize : Nat) (data : Bytes) (ev : LockEv) (t : Tmo)
+    (sock : List SockCall) (w w' : World) (h : lockWithTimeout ev t w = .timeout w') :
+    (udpClientRecv ri bufsize (some ev) t sock w).out = .timeout ∧ (udpClientRecv ri bufsize (some ev) t sock w).rest = sock ∧
+    (udpClientRecv ri bufsize (some ev) t sock w).w = w' ∧
+    (udpClientSend ri data (some ev) t sock w).out = .timeout ∧ (udpClientSend ri data (some ev) t sock w).rest = sock ∧
+    (udpClientSend ri data (some ev) t sock w).w = w' := by
+  simp [udpClientRecv, udpClientSend, h]
+
 end EasyNet
